@@ -59,6 +59,18 @@ class Raised:
 _SIG_MISMATCH = re.compile(r"got an unexpected keyword argument|positional arguments? but|required (positional|keyword-only) argument|got multiple values for")
 
 
+_PROXY_NAMES = re.compile(r"\b(SArr|SNum|SBool|SRec|SSeq|SList|SymMap|SymSet|SymDict|SRange|SEnum|Poison|_Unbound)\b")
+_OP_FAIL = re.compile(r"unsupported operand type|not supported between instances|object is not (callable|subscriptable|iterable)|"
+                      r"object does not support item assignment|cannot be interpreted as an integer|must be .* not ")
+
+
+class _ProxyOp:
+    @staticmethod
+    def search(msg):
+        return _PROXY_NAMES.search(msg) and _OP_FAIL.search(msg)
+
+
+_PROXY_OP = _ProxyOp
 _SRC_CACHE = {}
 
 
@@ -97,6 +109,8 @@ def harness_limit(e):
             if (cls.__module__ or "").startswith(shadow.PKG) and _assigned_in_class_source(cls, getattr(e, "name", None)):
                 return (f"the fixture builds {cls.__qualname__} without its constructor and does not provide the attribute '{e.name}' "
                         f"the code now uses (new state needs a contract)")
+    if isinstance(e, TypeError) and _PROXY_OP.search(str(e)):
+        return f"an operation on a symbolic proxy is not modelled: {e}"
     if isinstance(e, TypeError) and _SIG_MISMATCH.search(str(e)) and ("<locals>" in str(e) or "<lambda>" in str(e)):
         return f"a sidecar stub is called with a signature it does not have: {e}"
     return None
